@@ -537,5 +537,86 @@ theorem c16_shape_serviceManager_closeDatabase :
    ["if:(s.db!=nil)", "db.Close", "if:(err!=nil)", "if:s.delDb", "s.dbFileName", "os.Remove",
      "if:(err!=nil)", "return:xerrors.Errorf(\"\",err)", "return:nil"] := rfl
 
+theorem c16_shape_newContext_c16 :
+    Shapes.context_newContext_c16 =
+   ["ServiceFactory.Name", "ServiceFactory.Name",
+     "assign:ctx:=&Context{overlay:o,server:c,serviceID:servID,manager:manager,bucketName:conv(ServiceFactory.Name(servID)),bucketVersionName:conv((ServiceFactory.Name(servID)+\"\"))}",
+     "tx.CreateBucketIfNotExists", "assign:_,err:=tx.CreateBucketIfNotExists(ctx.bucketName)",
+     "if:(err!=nil)", "return:xerrors.Errorf(\"\",err)", "tx.CreateBucketIfNotExists",
+     "assign:_,err=tx.CreateBucketIfNotExists(ctx.bucketVersionName)", "if:(err!=nil)",
+     "return:xerrors.Errorf(\"\",err)", "return:nil", "db.Update",
+     "assign:err:=manager.db.Update(func)", "if:(err!=nil)", "return:ctx"] := rfl
+
+theorem c16_shape_Context_Save_c16 :
+    Shapes.context_Context_Save_c16 =
+   ["network.Marshal", "assign:buf,err:=network.Marshal(data)", "if:(err!=nil)",
+     "return:xerrors.Errorf(\"\",err)", "tx.Bucket", "assign:b:=tx.Bucket(c.bucketName)",
+     "return:b.Put(key,buf)", "db.Update", "assign:err=c.manager.db.Update(func)",
+     "if:(err!=nil)", "return:xerrors.Errorf(\"\",err)", "return:nil"] := rfl
+
+theorem c16_shape_Context_Load_c16 :
+    Shapes.context_Context_Load_c16 =
+   ["tx.Bucket", "Bucket().Get", "assign:v:=tx.Bucket().Get(key)", "if:(v==nil)", "return:nil",
+     "assign:buf=make(conv,len(v))", "copy", "return:nil", "db.View",
+     "assign:err:=c.manager.db.View(func)", "if:(err!=nil)",
+     "return:nil,xerrors.Errorf(\"\",err)", "if:(buf==nil)", "return:nil,nil",
+     "network.Unmarshal", "assign:_,ret,err:=network.Unmarshal(buf,c.server.suite)",
+     "if:(err!=nil)", "return:nil,xerrors.Errorf(\"\")", "return:ret,nil"] := rfl
+
+theorem c16_shape_Context_LoadRaw_c16 :
+    Shapes.context_Context_LoadRaw_c16 =
+   ["tx.Bucket", "Bucket().Get", "assign:v:=tx.Bucket().Get(key)", "if:(v==nil)", "return:nil",
+     "assign:buf=make(conv,len(v))", "copy", "return:nil", "db.View",
+     "assign:err:=c.manager.db.View(func)", "if:(err!=nil)",
+     "return:nil,xerrors.Errorf(\"\",err)", "return:buf,nil"] := rfl
+
+theorem c16_shape_Context_LoadVersion_c16 :
+    Shapes.context_Context_LoadVersion_c16 =
+   ["tx.Bucket", "Bucket().Get", "assign:v:=tx.Bucket().Get(dbVersion)", "if:(v==nil)",
+     "return:nil", "assign:buf=make(conv,len(v))", "copy", "return:nil", "db.View",
+     "assign:err:=c.manager.db.View(func)", "if:(err!=nil)",
+     "return:-1,xerrors.Errorf(\"\",err)", "if:(len(buf)==0)", "return:0,nil", "bytes.NewReader",
+     "binary.Read", "assign:err=binary.Read(bytes.NewReader(buf),binary.LittleEndian,&version)",
+     "if:(err!=nil)", "return:-1,xerrors.Errorf(\"\",err)", "return:int(version),nil"] := rfl
+
+theorem c16_shape_Context_SaveVersion_c16 :
+    Shapes.context_Context_SaveVersion_c16 =
+   ["bytes.NewBuffer", "assign:buf:=bytes.NewBuffer(nil)", "int32", "binary.Write",
+     "assign:err:=binary.Write(buf,binary.LittleEndian,int32(version))", "if:(err!=nil)",
+     "return:xerrors.Errorf(\"\",err)", "tx.Bucket", "assign:b:=tx.Bucket(c.bucketVersionName)",
+     "return:b.Put(dbVersion,buf.Bytes())", "db.Update", "assign:err=c.manager.db.Update(func)",
+     "if:(err!=nil)", "return:xerrors.Errorf(\"\",err)", "return:nil"] := rfl
+
+theorem c16_shape_Context_GetAdditionalBucket_c16 :
+    Shapes.context_Context_GetAdditionalBucket_c16 =
+   ["assign:bucketName:=make(conv,len(c.bucketName))", "copy", "byte",
+     "assign:fullName:=append(append(bucketName,byte('_')),name)", "tx.CreateBucketIfNotExists",
+     "assign:_,err:=tx.CreateBucketIfNotExists(fullName)", "if:(err!=nil)",
+     "return:xerrors.Errorf(\"\",err)", "return:nil", "db.Update",
+     "assign:err:=c.manager.db.Update(func)", "if:(err!=nil)", "return:c.manager.db,fullName"] := rfl
+
+theorem c16_shape_serviceManager_dbFileNameOld_c16 :
+    Shapes.service_serviceManager_dbFileNameOld_c16 =
+   ["Public.MarshalBinary", "assign:pub,_:=s.server.ServerIdentity.Public.MarshalBinary()",
+     "return:path.Join(s.dbPath,fmt.Sprintf(\"\",pub))"] := rfl
+
+theorem c16_shape_serviceManager_dbFileName_c16 :
+    Shapes.service_serviceManager_dbFileName_c16 =
+   ["Public.MarshalBinary", "assign:pub,_:=s.server.ServerIdentity.Public.MarshalBinary()",
+     "sha256.New", "assign:h:=sha256.New()", "h.Write",
+     "return:path.Join(s.dbPath,fmt.Sprintf(\"\",h.Sum(nil)))"] := rfl
+
+theorem c16_shape_serviceManager_updateDbFileName_c16 :
+    Shapes.service_serviceManager_updateDbFileName_c16 =
+   ["s.dbFileNameOld", "os.Stat", "assign:_,err:=os.Stat(s.dbFileNameOld())", "if:(err==nil)",
+     "s.dbFileNameOld", "s.dbFileName", "os.Rename",
+     "assign:err:=os.Rename(s.dbFileNameOld(),s.dbFileName())", "if:(err!=nil)"] := rfl
+
+theorem c16_shape_serviceManager_closeDatabase_c16 :
+    Shapes.service_serviceManager_closeDatabase_c16 =
+   ["if:(s.db!=nil)", "db.Close", "assign:err:=s.db.Close()", "if:(err!=nil)", "if:s.delDb",
+     "s.dbFileName", "os.Remove", "assign:err:=os.Remove(s.dbFileName())", "if:(err!=nil)",
+     "return:xerrors.Errorf(\"\",err)", "return:nil"] := rfl
+
 
 end C16
